@@ -30,7 +30,8 @@ Pieces composed: `Interrupt.Reach` (all writer calls), `LayoutWrite` (`Lay`, `Se
        `sess_prototypeOK` (record names), `tracked_cloud_offsets` (file offset fits `u64`, record count)
   12b `readEntry`, `Entry.content`, `session_reads`, **`copy_idempotent`**, `copy_deterministic`
   13 non-vacuity: `Ex.ex_sess` (new, one blob of 1100 bytes, one cloud with two points, every call `Ok`),
-       `Ex.session_instance` (plain `finalize`; all hypotheses discharged except the two size bounds),
+       `Ex.session_instance` (plain `finalize`; all hypotheses discharged except the two size bounds:
+       XML at most 10 MiB — needed for `finalize` to succeed at all — and file below 2^64 bytes),
        `Ex.closed_instance` (same session, transformer with known output: NO hypothesis left, the blob and
        the two points are read back from the device bytes), `Ex.sizes_instance` (the empty session)
 
@@ -41,16 +42,18 @@ Hypotheses of `session_roundtrip` and why they are there
     not of the model's `Int`), was not "forgotten" (`pcForget`) and was not used after its `finalize`.
     `NoDupNames` is NOT needed.
   * `e'.pw.dev.data.length < 2^64` — offsets and lengths are stored as `u64`.
-  * `(utf8 xml).length ≤ maxXmlSize` — the reader refuses an XML section above 10 MiB (`MAX_XML_SIZE`);
-    the writer has no such limit (FINDING, see below).
+  * NOT needed any more: `(utf8 xml).length ≤ maxXmlSize` — the reader refuses an XML section above 10 MiB
+    (`MAX_XML_SIZE`); since the fix of `finalize_customized_xml` the writer refuses such XML too
+    (`finalize_xml_le`), so the bound follows from `EW.finalize … = .ok e'`.
   * `xo (utf8 xml) = MT.rootDoc …` — the external parser returns the tree of the text (obligation C of C04).
   * `hcr`, `okpc`, `okimg` — the float-text / integer-range side conditions of C04 on the metadata values.
   Derived from the session (not assumed): `ExtsOk`, `NoImagesShadow`, XML non-empty, all window facts, the
   "room" hypothesis of C01 for sections without packets (the XML follows).
 
 Findings / remarks
-  * The writer produces files the reader of the same crate refuses: nothing bounds the XML size on the
-    writer side, `extract_xml` rejects `xml_length > 10 MiB`.  (Hypothesis `hmax`.)
+  * (FIXED in the crate, formerly hypothesis `hmax`) The writer produced files the reader of the same crate
+    refuses: nothing bounded the XML size on the writer side, `extract_xml` rejects `xml_length > 10 MiB`.
+    `finalize` now fails with "XML section too large" above 10 MiB; `finalize_xml_le`.
   * `PointCloudWriter::finalize(&mut self)` does not consume the writer, `Reach` therefore allows calls on it
     afterwards.  In the crate `add_point` then always fails ("Cannot find cartesian/spherical bounds": `finalize`
     took the bounds and no setter restores them; every valid prototype has Cartesian or spherical records), a
@@ -1011,6 +1014,22 @@ def finalStream (st : LogStream) (xml : Bytes) : LogStream :=
       (fileHeaderBytes (st.write xml).align.physSize (l2p st.cur) xml.length)) with
     cur := (st.write xml).align.cur }
 
+/-- **the writer refuses XML its own reader would refuse**: after a successful `finalize` the XML section
+    (whatever the transformer returned) is at most `MAX_XML_SIZE` = 10 MiB -/
+theorem finalize_xml_le (ft : FloatText) (e e' : EW) (tr : String → Option String)
+    (h : EW.finalize ft e tr = .ok e') :
+    ∀ x0 x, serializeRoot ft e.root e.pcs e.imgs e.exts = some x0 → tr x0 = some x →
+      (utf8 x).length ≤ maxXmlSize := by
+  intro x0 x hs ht
+  unfold EW.finalize at h
+  rw [hs] at h
+  dsimp only at h
+  rw [ht] at h
+  dsimp only at h
+  split at h
+  · cases h
+  · unfold maxXmlSize; omega
+
 /-- `ew_finalize_abs` with the XML text and the header fields identified -/
 theorem finalize_exact (ft : FloatText) (e e' : EW) (tr : String → Option String)
     (hpw : e.pw.Inv) (h : EW.finalize ft e tr = .ok e') :
@@ -1028,6 +1047,8 @@ theorem finalize_exact (ft : FloatText) (e e' : EW) (tr : String → Option Stri
     | some xml =>
       rw [ht] at h
       dsimp only at h
+      split at h
+      · cases h
       obtain ⟨p1, e1, h⟩ := Outcome.bind_eq_ok h
       obtain ⟨p1a, e1a, h⟩ := Outcome.bind_eq_ok h
       obtain ⟨p1', f1, i1, a1⟩ := pw_writeAll e.pw (utf8 xml) hpw
@@ -1324,7 +1345,8 @@ def RootSame (r : RootRead) (root : Root) : Prop :=
     r.coordinateMetadata = root.coordinateMetadata
 
 /-- **(b) `open_finalized`, any XML transformer**: `E57Reader::new` on the finished file succeeds (the
-    transformed XML must be non-empty and at most 10 MiB, the reader's limit); what it passes to the external
+    transformed XML must be non-empty; that it is at most 10 MiB, the reader's limit, follows from the success
+    of `finalize`: `finalize_xml_le`); what it passes to the external
     XML front end is exactly the UTF-8 text `finalize` wrote; if the front end returns for it the tree of
     the writer's document (obligation C of C04; for a customised XML: the customisation does not change the
     E57 part of the tree) the document-level metadata is the writer's -/
@@ -1333,7 +1355,7 @@ theorem open_finalized_tr {e e' : EW} {ops : List WOp} {g : List Entry} (ft : Fl
     (hfin : EW.finalize ft e tr = .ok e')
     (hsz : e'.pw.dev.data.length < 2 ^ 64)
     (hxml : ∀ x0 x, serializeRoot ft e.root e.pcs e.imgs e.exts = some x0 → tr x0 = some x →
-      0 < (utf8 x).length ∧ (utf8 x).length ≤ maxXmlSize)
+      0 < (utf8 x).length)
     (horacle : ∀ x0 x, serializeRoot ft e.root e.pcs e.imgs e.exts = some x0 → tr x0 = some x →
       xo (utf8 x) = MT.rootDoc ft e.root e.pcs e.imgs e.exts)
     (hcr : ∀ d, e.root.creation = some d → MT.F64OK ft fp d.gpsTime)
@@ -1360,7 +1382,7 @@ theorem open_finalized_tr {e e' : EW} {ops : List WOp} {g : List Entry} (ft : Fl
     rw [d', hil] at hsz; unfold l2p; omega
   have hL : 1024 * (e'.pw.abs.data.length / 1020) < 2 ^ 64 := by rw [d', hil] at hsz; exact hsz
   obtain ⟨pr, hpr, hopen⟩ := open_image e'.pw.abs.data (utf8 xml) _ e.pw.abs.cur wf'.1 hphys hL
-    ffh ffx ffe (hxml xml0 xml hs ht).1 (hxml xml0 xml hs ht).2
+    ffh ffx ffe (hxml xml0 xml hs ht) (finalize_xml_le ft e e' tr hfin xml0 xml hs ht)
   have hdocS : (MT.rootDoc ft e.root e.pcs e.imgs e.exts).isSome = true := by
     rw [MT.rootDoc_isSome_iff, hs]; rfl
   obtain ⟨doc, hdoc⟩ := Option.isSome_iff_exists.mp hdocS
@@ -1388,7 +1410,7 @@ theorem session_roundtrip_tr {e e' : EW} {ops : List WOp} {g : List Entry} (ft :
     (hfin : EW.finalize ft e tr = .ok e')
     (hsz : e'.pw.dev.data.length < 2 ^ 64)
     (hxml : ∀ x0 x, serializeRoot ft e.root e.pcs e.imgs e.exts = some x0 → tr x0 = some x →
-      0 < (utf8 x).length ∧ (utf8 x).length ≤ maxXmlSize)
+      0 < (utf8 x).length)
     (horacle : ∀ x0 x, serializeRoot ft e.root e.pcs e.imgs e.exts = some x0 → tr x0 = some x →
       xo (utf8 x) = MT.rootDoc ft e.root e.pcs e.imgs e.exts)
     (hcr : ∀ d, e.root.creation = some d → MT.F64OK ft fp d.gpsTime)
@@ -1417,7 +1439,7 @@ theorem session_roundtrip_tr {e e' : EW} {ops : List WOp} {g : List Entry} (ft :
   have ff := final_facts e.pw.abs (utf8 xml) wf.1 wf.2 hT.h48
   have ffe := ff.xmlEnd
   rw [← a'] at ffe
-  have hpos := (hxml x0 xml hs ht).1
+  have hpos := hxml x0 xml hs ht
   have hphys : l2p e'.pw.abs.data.length < 2 ^ 64 := by
     rw [d', image_length e'.pw.abs.data wf'.1] at hsz; unfold l2p; omega
   have hall : ∀ r0, BlobRT.Healthy e'.pw.abs.data r0 → ∀ it ∈ g, it.ReadBack e'.pw.abs.data r0 := by
@@ -1437,7 +1459,6 @@ theorem open_finalized {e e' : EW} {ops : List WOp} {g : List Entry} (ft : Float
     (xo : XmlOracle) (hS : Sess e .top ops g)
     (hfin : EW.finalize ft e (fun x => some x) = .ok e')
     (hsz : e'.pw.dev.data.length < 2 ^ 64)
-    (hmax : ∀ xml, serializeRoot ft e.root e.pcs e.imgs e.exts = some xml → (utf8 xml).length ≤ maxXmlSize)
     (horacle : ∀ xml, serializeRoot ft e.root e.pcs e.imgs e.exts = some xml →
       xo (utf8 xml) = MT.rootDoc ft e.root e.pcs e.imgs e.exts)
     (hcr : ∀ d, e.root.creation = some d → MT.F64OK ft fp d.gpsTime)
@@ -1450,21 +1471,20 @@ theorem open_finalized {e e' : EW} {ops : List WOp} {g : List Entry} (ft : Float
       rd.pcs = e.pcs.map MT.PointCloud.stored ∧ rd.imgs = e.imgs ∧ rd.exts = e.exts ∧
       BlobRT.Healthy e'.pw.abs.data rd.pr := by
   obtain ⟨rd, x0, xml, h1, h2, h3, h4⟩ := open_finalized_tr ft fp xo (fun x => some x) hS hfin hsz
-    (by intro x0 x h1 h2; cases h2; exact ⟨serializeRoot_nonempty ft _ _ _ _ x0 h1, hmax x0 h1⟩)
+    (by intro x0 x h1 h2; cases h2; exact serializeRoot_nonempty ft _ _ _ _ x0 h1)
     (by intro x0 x h1 h2; cases h2; exact horacle x0 h1) hcr okpc okimg
   cases h3
   exact ⟨rd, x0, h1, h2, h4⟩
 
 /-- **(d) the whole-session round trip** (plain `finalize`).  Hypotheses besides the session itself:
-    the file is smaller than 2^64 bytes (offsets are `u64`), the XML at most 10 MiB (the reader's limit
-    `MAX_XML_SIZE`), the external XML parser returns the tree `MT.rootDoc` of the text (obligation C), and the
-    float/integer side conditions of C04 on the metadata values (`hcr`, `okpc`, `okimg`).  `ExtsOk`,
-    `NoImagesShadow` and the non-emptiness of the XML are derived from the session. -/
+    the file is smaller than 2^64 bytes (offsets are `u64`), the external XML parser returns the tree
+    `MT.rootDoc` of the text (obligation C), and the float/integer side conditions of C04 on the metadata
+    values (`hcr`, `okpc`, `okimg`).  `ExtsOk`, `NoImagesShadow`, the non-emptiness of the XML and its size
+    limit (at most 10 MiB, `finalize_xml_le`) are derived from the session. -/
 theorem session_roundtrip {e e' : EW} {ops : List WOp} {g : List Entry} (ft : FloatText) (fp : FloatParse)
     (xo : XmlOracle) (hS : Sess e .top ops g)
     (hfin : EW.finalize ft e (fun x => some x) = .ok e')
     (hsz : e'.pw.dev.data.length < 2 ^ 64)
-    (hmax : ∀ xml, serializeRoot ft e.root e.pcs e.imgs e.exts = some xml → (utf8 xml).length ≤ maxXmlSize)
     (horacle : ∀ xml, serializeRoot ft e.root e.pcs e.imgs e.exts = some xml →
       xo (utf8 xml) = MT.rootDoc ft e.root e.pcs e.imgs e.exts)
     (hcr : ∀ d, e.root.creation = some d → MT.F64OK ft fp d.gpsTime)
@@ -1482,7 +1502,7 @@ theorem session_roundtrip {e e' : EW} {ops : List WOp} {g : List Entry} (ft : Fl
           RawIter.run (pts.length + 1) ⟨q, (MT.PointCloud.stored pc).records, 0⟩ r1
             = pts.map E57.Item.value ++ [E57.Item.done]) :=
   session_roundtrip_tr ft fp xo (fun x => some x) hS hfin hsz
-    (by intro x0 x h1 h2; cases h2; exact ⟨serializeRoot_nonempty ft _ _ _ _ x0 h1, hmax x0 h1⟩)
+    (by intro x0 x h1 h2; cases h2; exact serializeRoot_nonempty ft _ _ _ _ x0 h1)
     (by intro x0 x h1 h2; cases h2; exact horacle x0 h1) hcr okpc okimg
 
 /-- **(b) for `Reach`**: the document-level round trip needs no ghost annotation — for ANY sequence of
@@ -1491,7 +1511,6 @@ theorem reach_open_finalized {e e' : EW} {ops : List WOp} (ft : FloatText) (fp :
     (xo : XmlOracle) (hR : Interrupt.Reach e .top ops)
     (hfin : EW.finalize ft e (fun x => some x) = .ok e')
     (hsz : e'.pw.dev.data.length < 2 ^ 64)
-    (hmax : ∀ xml, serializeRoot ft e.root e.pcs e.imgs e.exts = some xml → (utf8 xml).length ≤ maxXmlSize)
     (horacle : ∀ xml, serializeRoot ft e.root e.pcs e.imgs e.exts = some xml →
       xo (utf8 xml) = MT.rootDoc ft e.root e.pcs e.imgs e.exts)
     (hcr : ∀ d, e.root.creation = some d → MT.F64OK ft fp d.gpsTime)
@@ -1505,7 +1524,7 @@ theorem reach_open_finalized {e e' : EW} {ops : List WOp} (ft : FloatText) (fp :
       BlobRT.Healthy e'.pw.abs.data rd.pr := by
   obtain ⟨gc, g, hc, _, hs⟩ := reach_sess hR
   cases GCur.eq_top hc
-  exact open_finalized ft fp xo hs hfin hsz hmax horacle hcr okpc okimg
+  exact open_finalized ft fp xo hs hfin hsz horacle hcr okpc okimg
 
 /-! # Part 12b — copying a file -/
 
@@ -1531,7 +1550,7 @@ theorem session_reads {e e' : EW} {ops : List WOp} {g : List Entry} (ft : FloatT
     (hfin : EW.finalize ft e tr = .ok e')
     (hsz : e'.pw.dev.data.length < 2 ^ 64)
     (hxml : ∀ x0 x, serializeRoot ft e.root e.pcs e.imgs e.exts = some x0 → tr x0 = some x →
-      0 < (utf8 x).length ∧ (utf8 x).length ≤ maxXmlSize)
+      0 < (utf8 x).length)
     (horacle : ∀ x0 x, serializeRoot ft e.root e.pcs e.imgs e.exts = some x0 → tr x0 = some x →
       xo (utf8 x) = MT.rootDoc ft e.root e.pcs e.imgs e.exts)
     (hcr : ∀ d, e.root.creation = some d → MT.F64OK ft fp d.gpsTime)
@@ -1568,9 +1587,9 @@ theorem copy_idempotent {e1 e1' e2 e2' : EW} {ops1 ops2 : List WOp} {g1 g2 : Lis
     (hroot : e1.root = e2.root) (hexts : e1.exts = e2.exts)
     (hsz1 : e1'.pw.dev.data.length < 2 ^ 64) (hsz2 : e2'.pw.dev.data.length < 2 ^ 64)
     (hxml1 : ∀ x0 x, serializeRoot ft e1.root e1.pcs e1.imgs e1.exts = some x0 → tr1 x0 = some x →
-      0 < (utf8 x).length ∧ (utf8 x).length ≤ maxXmlSize)
+      0 < (utf8 x).length)
     (hxml2 : ∀ x0 x, serializeRoot ft e2.root e2.pcs e2.imgs e2.exts = some x0 → tr2 x0 = some x →
-      0 < (utf8 x).length ∧ (utf8 x).length ≤ maxXmlSize)
+      0 < (utf8 x).length)
     (horacle1 : ∀ x0 x, serializeRoot ft e1.root e1.pcs e1.imgs e1.exts = some x0 → tr1 x0 = some x →
       xo1 (utf8 x) = MT.rootDoc ft e1.root e1.pcs e1.imgs e1.exts)
     (horacle2 : ∀ x0 x, serializeRoot ft e2.root e2.pcs e2.imgs e2.exts = some x0 → tr2 x0 = some x →
@@ -1808,35 +1827,40 @@ theorem ex_serialize (ft : FloatText) (e : EW) (h : e.root = exE0.root) :
 
 /-- **the hypotheses of `session_roundtrip` are satisfiable by a non-trivial session** (`ex_sess` followed by
     the top-level `finalize`): all hypotheses of `session_roundtrip` hold for it — for every float text `ft`,
-    parser `fp`, with the XML front end `xo` returning the tree of the document — except the two size bounds,
-    which are kept as hypotheses: the XML text goes through `cdataEscape` = `String.replace`, which does not
+    parser `fp`, with the XML front end `xo` returning the tree of the document — except that the XML is at
+    most 10 MiB (without which `finalize` itself refuses) and that the file is below 2^64 bytes, which are
+    kept as hypotheses: the XML text goes through `cdataEscape` = `String.replace`, which does not
     evaluate in the kernel (cf. `MT.FormatNameUnescaped`); `closed_instance` below discharges them for a
-    transformer with a known output.  Under them the theorem yields: the blob and the two points are read
-    back from the device bytes. -/
+    transformer with a known output.  Under them `finalize` succeeds and the theorem yields: the blob and
+    the two points are read back from the device bytes. -/
 theorem session_instance (ft : FloatText) (fp : FloatParse) :
-    ∃ (e e' : EW) (ops : List WOp) (b : BlobRef) (pc : PointCloud) (s1 s2 n : Nat) (xo : XmlOracle),
+    ∃ (e : EW) (ops : List WOp) (b : BlobRef) (pc : PointCloud) (s1 s2 n : Nat) (xo : XmlOracle),
       Sess e .top ops [.blob b exData s1, .cloud pc pts s2 n] ∧
-      EW.finalize ft e (fun x => some x) = .ok e' ∧
       (∀ xml, serializeRoot ft e.root e.pcs e.imgs e.exts = some xml →
         xo (utf8 xml) = MT.rootDoc ft e.root e.pcs e.imgs e.exts) ∧
       (∀ d, e.root.creation = some d → MT.F64OK ft fp d.gpsTime) ∧
       (∀ i ∈ e.imgs, MT.Image.OK ft fp i) ∧
-      (e'.pw.dev.data.length < 2 ^ 64 → ∀ pc ∈ e.pcs, MT.PointCloud.OK ft fp e.exts pc) ∧
-      (e'.pw.dev.data.length < 2 ^ 64 →
-        (∀ xml, serializeRoot ft e.root e.pcs e.imgs e.exts = some xml → (utf8 xml).length ≤ maxXmlSize) →
-        ∃ rd, Reader.open e'.pw.dev.data xo fp = some rd ∧ rd.pcs = [MT.PointCloud.stored pc] ∧
-          (blobRead rd.pr b).2 = some exData ∧
-          ∃ r1 q, QR.new (MT.PointCloud.stored pc) rd.pr = (r1, some q) ∧
-            RawIter.run 3 ⟨q, (MT.PointCloud.stored pc).records, 0⟩ r1
-              = [.value [.integer 1000, .single 0x3f800000, .integer (-5)],
-                 .value [.integer 7, .single 0, .integer 5], .done]) := by
+      ((∀ xml, serializeRoot ft e.root e.pcs e.imgs e.exts = some xml → (utf8 xml).length ≤ maxXmlSize) →
+        ∃ e', EW.finalize ft e (fun x => some x) = .ok e' ∧
+        (e'.pw.dev.data.length < 2 ^ 64 → ∀ pc ∈ e.pcs, MT.PointCloud.OK ft fp e.exts pc) ∧
+        (e'.pw.dev.data.length < 2 ^ 64 →
+          ∃ rd, Reader.open e'.pw.dev.data xo fp = some rd ∧ rd.pcs = [MT.PointCloud.stored pc] ∧
+            (blobRead rd.pr b).2 = some exData ∧
+            ∃ r1 q, QR.new (MT.PointCloud.stored pc) rd.pr = (r1, some q) ∧
+              RawIter.run 3 ⟨q, (MT.PointCloud.stored pc).records, 0⟩ r1
+                = [.value [.integer 1000, .single 0x3f800000, .integer (-5)],
+                   .value [.integer 7, .single 0, .integer 5], .done])) := by
   obtain ⟨e, ops, b, pc, s1, s2, n, hS, hroot, hpcs, himgs, hexts, hlen, hok⟩ := ex_sess
   obtain ⟨x0, hx0⟩ := ex_serialize ft e hroot
-  obtain ⟨e', he'⟩ := BlobRT.finalize_ok ft e (fun x => some x) (sess_inv hS : TopInv e.pw _).inv x0 x0 hx0 rfl
   have hcr : ∀ d, e.root.creation = some d → MT.F64OK ft fp d.gpsTime := by
     intro d h; rw [hroot] at h; cases h
   have himg : ∀ i ∈ e.imgs, MT.Image.OK ft fp i := by
     intro i hi; rw [himgs] at hi; cases hi
+  refine ⟨e, ops, b, pc, s1, s2, n, fun _ => MT.rootDoc ft e.root e.pcs e.imgs e.exts, hS,
+    fun _ _ => rfl, hcr, himg, ?_⟩
+  intro hmax
+  obtain ⟨e', he'⟩ := BlobRT.finalize_ok ft e (fun x => some x) (sess_inv hS : TopInv e.pw _).inv x0 x0 hx0 rfl
+    (hmax x0 hx0)
   have hokpc : e'.pw.dev.data.length < 2 ^ 64 → ∀ pc' ∈ e.pcs, MT.PointCloud.OK ft fp e.exts pc' := by
     intro hsz pc' hpc'
     rw [hpcs] at hpc'
@@ -1844,11 +1868,10 @@ theorem session_instance (ft : FloatText) (fp : FloatParse) :
     subst hpc'
     rw [hexts]
     exact hok ft fp (tracked_cloud_offsets ft _ hS he' hsz pc' pts s2 n (by simp)).2.1
-  refine ⟨e, e', ops, b, pc, s1, s2, n, fun _ => MT.rootDoc ft e.root e.pcs e.imgs e.exts, hS, he',
-    fun _ _ => rfl, hcr, himg, hokpc, ?_⟩
-  intro hsz hmax
+  refine ⟨e', he', hokpc, ?_⟩
+  intro hsz
   obtain ⟨rd, ho, _, hpcs', _, _, _, hpr, hblob, hcloud⟩ :=
-    session_roundtrip ft fp (fun _ => MT.rootDoc ft e.root e.pcs e.imgs e.exts) hS he' hsz hmax
+    session_roundtrip ft fp (fun _ => MT.rootDoc ft e.root e.pcs e.imgs e.exts) hS he' hsz
       (fun _ _ => rfl) hcr (hokpc hsz) himg
   refine ⟨rd, ho, by rw [hpcs', hpcs]; rfl, (hblob rd.pr hpr b exData s1 (by simp)).1, ?_⟩
   exact hcloud rd.pr hpr pc pts s2 n (by simp)
@@ -1873,6 +1896,7 @@ theorem closed_instance (ft : FloatText) (fp : FloatParse) :
   obtain ⟨x0, hx0⟩ := ex_serialize ft e hroot
   have hT : TopInv e.pw _ := sess_inv hS
   obtain ⟨e', he'⟩ := BlobRT.finalize_ok ft e (fun _ => some "<x/>") hT.inv x0 "<x/>" hx0 rfl
+    (by decide +kernel)
   have hx : (utf8 "<x/>").length = 4 := by rw [utf8_length]; decide
   have hsz : e'.pw.dev.data.length < 2 ^ 64 := by
     obtain ⟨y0, y, hy0, hy, i', a', d'⟩ := finalize_exact ft e e' _ hT.inv he'
@@ -1906,7 +1930,7 @@ theorem closed_instance (ft : FloatText) (fp : FloatParse) :
   obtain ⟨rd, ho, _, hpcs', _, _, _, hpr, hblob, hcloud⟩ :=
     session_roundtrip_tr ft fp (fun _ => MT.rootDoc ft e.root e.pcs e.imgs e.exts) (fun _ => some "<x/>")
       hS he' hsz
-      (by intro y0 y _ hy; cases hy; rw [hx]; exact ⟨by decide, by decide⟩)
+      (by intro y0 y _ hy; cases hy; rw [hx]; decide)
       (fun _ _ _ _ => rfl) hcr hokpc himg
   exact ⟨e, e', ops, b, pc, s1, s2, n, _, _, rd, hS, he', hsz, ho, by rw [hpcs', hpcs]; rfl,
     (hblob rd.pr hpr b exData s1 (by simp)).1, hcloud rd.pr hpr pc pts s2 n (by simp)⟩
@@ -1919,7 +1943,7 @@ theorem sizes_instance (ft : FloatText) (fp : FloatParse) :
       Sess e .top ops [] ∧ EW.finalize ft e tr = .ok e' ∧
       e'.pw.dev.data.length < 2 ^ 64 ∧
       (∀ x0 x, serializeRoot ft e.root e.pcs e.imgs e.exts = some x0 → tr x0 = some x →
-        0 < (utf8 x).length ∧ (utf8 x).length ≤ maxXmlSize) ∧
+        0 < (utf8 x).length) ∧
       (∀ x0 x, serializeRoot ft e.root e.pcs e.imgs e.exts = some x0 → tr x0 = some x →
         xo (utf8 x) = MT.rootDoc ft e.root e.pcs e.imgs e.exts) ∧
       (∀ d, e.root.creation = some d → MT.F64OK ft fp d.gpsTime) ∧
@@ -1934,6 +1958,7 @@ theorem sizes_instance (ft : FloatText) (fp : FloatParse) :
     exact ⟨_, rfl⟩
   obtain ⟨x0, hx0⟩ := hs
   obtain ⟨e', he'⟩ := BlobRT.finalize_ok ft exE0 (fun _ => some "<x/>") hT.inv x0 "<x/>" hx0 rfl
+    (by decide +kernel)
   have hx : (utf8 "<x/>").length = 4 := by rw [utf8_length]; decide
   refine ⟨exE0, e', _, fun _ => MT.rootDoc ft exE0.root [] [] [], fun _ => some "<x/>", S0, he', ?_,
     ?_, fun _ _ _ _ => rfl, (by intro d h; cases h), (by intro pc h; cases h), (by intro i h; cases h)⟩
@@ -1969,7 +1994,7 @@ theorem sizes_instance (ft : FloatText) (fp : FloatParse) :
   · intro y0 y _ hy
     cases hy
     rw [hx]
-    exact ⟨by decide, by decide⟩
+    decide
 
 end Ex
 
